@@ -95,27 +95,31 @@ def errClass? (r : Except Err α) : Option ErrClass :=
 /-- `Error.parse([8,48,1,{"forward_for":[1]},"a.b"])`: AssertionError as long as the `for … break … valid = True` loop of
 Error.parse is not repaired (`ffFixed_Error`, regenerated from the source on every run) -/
 theorem f3_forward_for_witness :
-    ffFixed_Error = false →
+    ffFixed_Error = false → Schemas.error.ctorAsserts = true →
     errClass? (unserializeOne oracles (.list [.int 8, .int 48, .int 1,
       .dict [(cs!"forward_for", .list [.int 1])], .str cs!"a.b"])) = some .assertion := by decide +kernel
 
 /-- `[8,48,1,{"enc_key":"k"},"a.b",b"xx"]`: `enc_key` without `enc_algo` trips the constructor's triple assertion -/
 theorem f3_enc_key_witness :
+    Schemas.error.ctorAsserts = true →
     errClass? (unserializeOne oracles (.list [.int 8, .int 48, .int 1,
       .dict [(cs!"enc_key", .str cs!"k")], .str cs!"a.b", .bytes [120, 120]])) = some .assertion := by decide +kernel
 
 /-- `[2,1,{"roles":{"broker":{}},"realm":1}]`: WELCOME takes `realm` unvalidated -/
 theorem f3_welcome_realm_witness :
+    Schemas.welcome.ctorAsserts = true →
     errClass? (unserializeOne oracles (.list [.int 2, .int 1,
       .dict [(cs!"roles", .dict [(cs!"broker", .dict [])]), (cs!"realm", .int 1)]])) = some .assertion := by decide +kernel
 
 /-- `[35,5,{"subscription":7}]`: UNSUBSCRIBED's constructor asserts request == 0 when a subscription is given -/
 theorem f3_unsubscribed_witness :
+    Schemas.unsubscribed.ctorAsserts = true →
     errClass? (unserializeOne oracles (.list [.int 35, .int 5, .dict [(cs!"subscription", .int 7)]])) = some .assertion := by
   decide +kernel
 
 /-- `[16,1,{},"a.b","x"]`: PUBLISH accepts a `str` payload which the constructor then rejects -/
 theorem f3_publish_str_payload_witness :
+    Schemas.publish.ctorAsserts = true →
     errClass? (unserializeOne oracles (.list [.int 16, .int 1, .dict [], .str cs!"a.b", .str cs!"x"])) = some .assertion := by
   decide +kernel
 
@@ -125,10 +129,10 @@ theorem hello_self_feature_witness :
       .dict [(cs!"roles", .dict [(cs!"caller", .dict [(cs!"features", .dict [(cs!"self", .bool true)])])])]])) =
       some .typeError := by decide +kernel
 
-/-- hence the full statement fails on the faithful model -/
-theorem not_parseTotalTyped : ¬ ParseTotalTyped oracles := by
+/-- hence the full statement fails on the faithful model (as long as ERROR's constructor still asserts) -/
+theorem not_parseTotalTyped (hflag : Schemas.error.ctorAsserts = true) : ¬ ParseTotalTyped oracles := by
   intro h
-  have hw := f3_enc_key_witness
+  have hw := f3_enc_key_witness hflag
   unfold errClass? at hw
   split at hw
   · simp at hw
@@ -254,13 +258,14 @@ example : Schemas.call.parse oracles (Schemas.call.marshal exCall) = .ok exCall 
 /-- witness: `[16,1,{},"a.b","s",{}]` is accepted by PUBLISH (args may be a `str` there), re-marshals to
 `[16,1,{},"a.b","s"]`, which is read as a `str` payload and trips the constructor -/
 theorem reparse_witness_publish :
+    Schemas.publish.ctorAsserts = true →
     (match Schemas.publish.parse oracles [.int 16, .int 1, .dict [], .str cs!"a.b", .str cs!"s", .dict []] with
      | .ok m => errClass? (Schemas.publish.parse oracles (Schemas.publish.marshal m)) == some .assertion
      | .error _ => false) = true := by decide +kernel
 
-theorem not_reparseEquiv_publish : ¬ ReparseEquiv Schemas.publish := by
+theorem not_reparseEquiv_publish (hflag : Schemas.publish.ctorAsserts = true) : ¬ ReparseEquiv Schemas.publish := by
   intro h
-  have hw := reparse_witness_publish
+  have hw := reparse_witness_publish hflag
   split at hw
   · rename_i m he
     rw [h _ m he] at hw
